@@ -115,7 +115,7 @@ func edgesPropagated(p *load.Program, fn *ssa.Function, base ssa.Value, m string
 			// composite's own value of that setting read back through its getter
 			if mainArg != nil {
 				arg := setterArg(ins)
-				same := arg == mainArg
+				same := arg == mainArg || sameConst(arg, mainArg)
 				if gc, isCall := arg.(*ssa.Call); isCall && !same {
 					gname := ""
 					var grecv ssa.Value
@@ -1841,4 +1841,17 @@ func summaryLostIn(p *load.Program, h *ssa.Function, setName, getName, nextGette
 		}
 	}
 	return "but does not set the flag on that successor when the node it drops carried the summary"
+}
+
+// sameConst: two constants of identical type and value (every literal is its own SSA value).
+func sameConst(a, b ssa.Value) bool {
+	ca, ok1 := a.(*ssa.Const)
+	cb, ok2 := b.(*ssa.Const)
+	if !ok1 || !ok2 || !types.Identical(ca.Type(), cb.Type()) {
+		return false
+	}
+	if ca.Value == nil || cb.Value == nil {
+		return ca.Value == nil && cb.Value == nil
+	}
+	return ca.Value.ExactString() == cb.Value.ExactString()
 }
